@@ -11,13 +11,14 @@ open AscentVerif AscentVerif.Engine
 
 /-- what a successful HIR pass over a rule body establishes: every relation occurrence resolves with the
 right arity, every aggregated variable is an argument of the aggregated relation, and the patterns of every
-item are fresh at their position -/
+item and the bound arguments of every aggregation are fresh at their position -/
 theorem hirRules_ok_iff (ds : List Decl) (rules : List CoreRule) :
     hirRules ds rules = .ok () ↔
       (∀ r ∈ rules, ∀ o ∈ r.occurrences, ∃ d, findDecl ds o.1 = some d ∧ d.arity = o.2) ∧
       ¬ IllFormedAggBound rules ∧
       (∀ r ∈ rules, ∀ pre ev post, r.body = pre ++ ev :: post →
-        ev.binderVars.Nodup ∧ ∀ v ∈ ev.binderVars, v ∉ pre.flatMap Ev.grounds ++ ev.argIdents) := by
+        ev.binderVars.Nodup ∧ (∀ v ∈ ev.binderVars, v ∉ pre.flatMap Ev.grounds ++ ev.argIdents) ∧
+          ev.boundVars.Nodup ∧ ∀ v ∈ ev.boundVars, v ∉ pre.flatMap Ev.grounds) := by
   rw [hirRules_ok_iff', ← aggBound_iff]
   simp only [hirRule_ok_iff]
   constructor
@@ -59,10 +60,12 @@ theorem rebind_rejected (s : Summary) (rules : List CoreRule) (hr : Reaches s)
   rw [hd] at hd'
   cases hd'
   obtain ⟨r, hr', pre, ev, post, heq, hbad⟩ := h
-  obtain ⟨h1, h2⟩ := ((hirRules_ok_iff s.decls rules).1 hh).2.2 r hr' pre ev post heq
-  rcases hbad with hbad | ⟨v, hv, hm⟩
+  obtain ⟨h1, h2, h3, h4⟩ := ((hirRules_ok_iff s.decls rules).1 hh).2.2 r hr' pre ev post heq
+  rcases hbad with hbad | ⟨v, hv, hm⟩ | hbad | ⟨v, hv, hm⟩
   · exact hbad h1
   · exact h2 v hv hm
+  · exact hbad h3
+  · exact h4 v hv hm
 
 /-- an aggregation over a variable that is no argument of the aggregated relation is rejected, in whatever
 rule and at whatever position it stands -/
@@ -129,10 +132,12 @@ theorem accepted_wellFormed (s : Summary) (hr : Reaches s) (h : check s = .ok ()
   obtain ⟨h1, h3, h2⟩ := (hirRules_ok_iff s.decls rules).1 hh
   refine ⟨rules, hd, h1, ?_, ?_, ?_, ?_, ?_, ?_, h3, (sigCheck_ok_iff s.sig).1 hsg, not_emptyDisj_of_whole hr.1⟩
   · rintro ⟨r, hr', pre, ev, post, heq, hbad⟩
-    obtain ⟨k1, k2⟩ := h2 r hr' pre ev post heq
-    rcases hbad with hbad | ⟨v, hv, hm⟩
+    obtain ⟨k1, k2, k3, k4⟩ := h2 r hr' pre ev post heq
+    rcases hbad with hbad | ⟨v, hv, hm⟩ | hbad | ⟨v, hv, hm⟩
     · exact hbad k1
     · exact k2 v hv hm
+    · exact hbad k3
+    · exact k4 v hv hm
   · intro hi
     rw [(stratError_iff s rules).2 hi] at hs
     cases hs
